@@ -1,4 +1,5 @@
 import DclabModel.Lemmas.Stats
+import DclabModel.Gen.StatsTable
 /-!
 # C12 — Statistics and density estimates are computed from exactly the filtered events
 
@@ -14,11 +15,18 @@ is correspondence-only (harness part c).
 * `purge_then_stat`, `events_gated`;
 * `bin_centres_are_midpoints`, `hist_counts_permutation_invariant`, `hist_total`;
 * `percentile_splits_partial` (+ `percentile_splits_full_is_false`);
-* `log_scale_commutes`.
+* `log_scale_commutes`;
+* `percentile_mono_in_q`, `percentile_permutation_invariant`, `median_is_percentile_50` and the
+  same for quantile levels;
+* the registry of statistics (table regenerated from the source): `registry_table`,
+  `registry_factors_through_sel`, `registry_stat_ignores_excluded`;
+* `get_statistics`: `getStatistics_ignores_excluded`, `getStatistics_length`,
+  `getStatistics_header`, `getStatistics_index`, `getStatistics_raises_iff`, `empty_selection`.
 -/
 namespace DclabModel.C12
 open DclabModel.Stats
 open DclabModel.Export (sel countTrue tsvRows lookupAll tsvFeats Src Feat)
+open DclabModel.Gen.StatsTable (registry)
 
 /-! ## 1. excluded events never matter -/
 
@@ -274,6 +282,311 @@ theorem percentile_splits_full_is_false :
 /-- when `q·(n−1)` is an integer no interpolation takes place and the level is an event value
 (example) -/
 example : percentile [3, 1, 2, 10, 7] (1 / 2) = some 3 := by decide +kernel
+
+/-! ## 4b. quantile levels: monotone in `q`, independent of the order of the events -/
+
+/-- the level grows with the quantile: `q ≤ q'` gives `percentile d q ≤ percentile d q'`
+(NumPy's linear rule, `0 ≤ q ≤ q' ≤ 1`) -/
+theorem percentile_mono_in_q (d : List Rat) (q q' : Rat) (h0 : 0 ≤ q) (hqq : q ≤ q') (h1 : q' ≤ 1)
+    (L L' : Rat) (hL : percentile d q = some L) (hL' : percentile d q' = some L') : L ≤ L' := by
+  have hd : d ≠ [] := by
+    intro h; subst h; simp [percentile] at hL
+  rw [percentile_eq_interp d hd] at hL hL'
+  cases hL; cases hL'
+  have hn : 1 ≤ d.length := by cases d <;> simp_all
+  have hn1 : (0 : Rat) ≤ (d.length : Rat) - 1 := by
+    have : ((1 : Nat) : Rat) ≤ (d.length : Rat) := Rat.natCast_le_natCast.mpr hn
+    simp at this; grind
+  have hlen : (sortR d).length = d.length := length_isort _ d
+  apply interp_mono _ (sorted_sortR d)
+  · exact Rat.mul_nonneg h0 hn1
+  · have := Rat.mul_nonneg (by grind : (0 : Rat) ≤ q' - q) hn1
+    grind
+  · rw [hlen]
+    have := Rat.mul_nonneg (by grind : (0 : Rat) ≤ 1 - q') hn1
+    grind
+
+/-- a percentile does not depend on the order of the events -/
+theorem percentile_permutation_invariant (d d' : List Rat) (h : d.Perm d') (q : Rat) :
+    percentile d q = percentile d' q := by
+  unfold percentile
+  have he : d.isEmpty = d'.isEmpty := by
+    cases d <;> cases d' <;> simp_all
+  rw [he, sortR_perm d d' h]
+
+/-- "Median" is the 50th percentile of NumPy's linear rule (`np.median(d) = np.percentile(d, 50)`),
+so the splitting, monotonicity and permutation theorems of this section apply to it -/
+theorem median_is_percentile_50 (d : List Rat) : median d = medianP d :=
+  median_eq_percentile d
+
+/-- quantile levels (`get_quantile_levels`) grow with `q` … -/
+theorem quantile_level_mono_in_q (dens : Rat × Rat → Val) (xs ys : List Val) (q q' : Rat)
+    (h0 : 0 ≤ q) (hqq : q ≤ q') (h1 : q' ≤ 1) (L L' : Rat)
+    (hL : quantileLevel dens xs ys q = some L) (hL' : quantileLevel dens xs ys q' = some L') :
+    L ≤ L' :=
+  percentile_mono_in_q _ q q' h0 hqq h1 L L' hL hL'
+
+/-- … and do not depend on the order in which the events are stored: permuting the events
+(both coordinates simultaneously) leaves every level unchanged -/
+theorem quantile_level_permutation_invariant (dens : Rat × Rat → Val) (xs ys xs' ys' : List Val)
+    (h : (xs.zip ys).Perm (xs'.zip ys')) (q : Rat) :
+    quantileLevel dens xs ys q = quantileLevel dens xs' ys' q := by
+  unfold quantileLevel
+  apply percentile_permutation_invariant
+  rw [goodPairs_eq_filterMap, goodPairs_eq_filterMap, fins_eq_filterMap, fins_eq_filterMap]
+  exact ((h.filterMap _).map _).filterMap _
+
+example : percentile [3, 1, 2, 10, 7] (1 / 4) = some 2 ∧ percentile [3, 1, 2, 10, 7] (9 / 10) = some (44 / 5)
+    ∧ percentile [10, 7, 3, 2, 1] (9 / 10) = some (44 / 5) := by decide +kernel
+
+/-! ## 6. the registry of statistics (regenerated from `Statistics.available_methods`) -/
+
+/-- table fact, re-checked whenever the registry changes: names are unique and every registered
+statistic is one the model knows, with the registered `req_feature` flag -/
+theorem registry_table :
+    ∀ e ∈ registry, registry.lookup e.1 = some e.2 ∧ kindOf e.1 = some e.2 := by
+  decide +kernel
+
+theorem featMethod_of_kind (fp : FP) (name : String) (h : kindOf name = some true) :
+    ∃ g, featMethod fp name = some g ∧ g [] = none := by
+  unfold kindOf at h
+  unfold featMethod
+  by_cases h1 : name = "Mean"
+  · exact ⟨mean, by simp [h1], rfl⟩
+  by_cases h2 : name = "Median"
+  · exact ⟨median, by simp [h2], rfl⟩
+  by_cases h3 : name = "Mode"
+  · exact ⟨modeFD fp.cbrt, by simp [h3], rfl⟩
+  by_cases h4 : name = "SD"
+  · exact ⟨sd fp.sqrt, by simp [h4], rfl⟩
+  simp [h1, h2, h3, h4] at h
+
+theorem dsMethod_of_kind (m : List Bool) (flow : Option Rat) (name : String)
+    (h : kindOf name = some false) : (dsMethod m flow name).isSome = true := by
+  unfold kindOf at h
+  unfold dsMethod
+  by_cases h1 : name = "Events"
+  · simp [h1]
+  by_cases h2 : name = "%-gated"
+  · simp [h2]
+  by_cases h3 : name = "Flow rate"
+  · simp [h3]
+  simp [h1, h2, h3] at h
+
+/-- a statistic — any registry, any name — never sees the values of excluded events -/
+theorem statCall_ignores_excluded (fp : FP) (reg : List (String × Bool)) (name : String)
+    (m : List Bool) (flow : Option Rat) (xs ys : List Val) (h : AgreeOn m xs ys) :
+    statCall fp reg name true m flow xs = statCall fp reg name true m flow ys := by
+  unfold statCall
+  split
+  · rfl
+  · cases featMethod fp name with
+    | none => rfl
+    | some g => simp only [Option.map_some, stat_ignores_excluded g m xs ys h]
+  · rfl
+
+/-- **every registered statistic factors through the selection.**  For each entry of the
+regenerated registry: the statistic is modelled; with a feature it is `g (fins (sel m xs))` for a
+fixed function `g` of the finite selected values (so excluded events never matter, and no valid
+selected event gives nan); without a feature it does not look at feature values at all. -/
+theorem registry_factors_through_sel (fp : FP) : ∀ e ∈ registry,
+    (e.2 = true → ∃ g : List Rat → Option Rat, g [] = none ∧ ∀ (m : List Bool) (flow : Option Rat)
+        (xs : List Val),
+        statCall fp registry e.1 true m flow xs = some (g (fins (sel m xs))) ∧
+        statCall fp registry e.1 false m flow xs = some (g (fins xs))) ∧
+    (e.2 = false → ∀ (en : Bool) (m : List Bool) (flow : Option Rat) (xs ys : List Val),
+        (statCall fp registry e.1 en m flow xs).isSome = true ∧
+        statCall fp registry e.1 en m flow xs = statCall fp registry e.1 en m flow ys) := by
+  intro e he
+  obtain ⟨hl, hk⟩ := registry_table e he
+  constructor
+  · intro h2
+    rw [h2] at hl hk
+    obtain ⟨g, hg, hg0⟩ := featMethod_of_kind fp e.1 hk
+    refine ⟨g, hg0, ?_⟩
+    intro m flow xs
+    unfold statCall
+    simp only [hl, hg, Option.map_some, statFeat, if_true]
+    simp
+  · intro h2
+    rw [h2] at hl hk
+    intro en m flow xs ys
+    unfold statCall
+    simp only [hl]
+    refine ⟨dsMethod_of_kind m flow e.1 hk, ?_⟩
+    first | rfl | trivial
+
+/-- corollary in the form of the headline: every registered statistic is modelled and two datasets
+that agree on the selected events give the same value -/
+theorem registry_stat_ignores_excluded (fp : FP) : ∀ e ∈ registry, ∀ (m : List Bool)
+    (flow : Option Rat) (xs ys : List Val), AgreeOn m xs ys →
+    (statCall fp registry e.1 true m flow xs).isSome = true ∧
+    statCall fp registry e.1 true m flow xs = statCall fp registry e.1 true m flow ys := by
+  intro e he m flow xs ys h
+  refine ⟨?_, statCall_ignores_excluded fp registry e.1 m flow xs ys h⟩
+  obtain ⟨h1, h2⟩ := registry_factors_through_sel fp e he
+  cases hb : e.2
+  · exact (h2 hb true m flow xs xs).1
+  · obtain ⟨g, _, hg⟩ := h1 hb
+    rw [(hg m flow xs).1]; rfl
+
+/-- the order of `get_statistics(ds)` with `methods=None` for today's registry -/
+example : defaultMethods registry
+    = ["Events", "%-gated", "Flow rate", "Mean", "Median", "Mode", "SD"] := by decide +kernel
+
+/-! ## 7. `get_statistics`: shape, order, empty selections -/
+
+/-- the whole answer of `get_statistics` (header and values) is the same for two datasets that
+agree on the selected events -/
+theorem getStatistics_ignores_excluded (fp : FP) (reg : List (String × Bool))
+    (methods : Option (List String)) (m : List Bool) (flow : Option Rat)
+    (feats feats' : List (String × Option (List Val)))
+    (h : AgreeFeats m feats feats') :
+    getStatistics fp reg methods feats true m flow
+      = getStatistics fp reg methods feats' true m flow := by
+  unfold getStatistics
+  simp only
+  split
+  · congr 2
+    induction h with
+    | nil => rfl
+    | @cons a b t t' hab _ ih =>
+      simp only [List.flatMap_cons, ih]
+      congr 1
+      apply List.map_congr_left
+      intro mt _
+      obtain ⟨hn, hv⟩ := hab
+      rcases a with ⟨an, ac⟩
+      rcases b with ⟨bn, bc⟩
+      simp only at hn hv
+      subst hn
+      cases ac with
+      | none =>
+        cases bc with
+        | none => rfl
+        | some y => exact hv.elim
+      | some x =>
+        cases bc with
+        | none => exact hv.elim
+        | some y =>
+          simp only
+          rw [statCall_ignores_excluded fp reg mt m flow x y hv]
+  · rfl
+
+/-- **shape**: the number of entries is `#dataset methods + #features · #feature methods` … -/
+theorem getStatistics_length (fp : FP) (reg : List (String × Bool)) (methods : Option (List String))
+    (feats : List (String × Option (List Val))) (enable : Bool) (m : List Bool) (flow : Option Rat)
+    (out : List Slot) (h : getStatistics fp reg methods feats enable m flow = some out) :
+    out.length = (methodsOf reg false (methods.getD (defaultMethods reg))).length
+      + feats.length * (methodsOf reg true (methods.getD (defaultMethods reg))).length := by
+  unfold getStatistics at h
+  simp only at h
+  split at h
+  · cases h
+    simp only [List.length_append, List.length_map]
+    congr 1
+    induction feats with
+    | nil => simp
+    | cons a t ih => simp only [List.flatMap_cons, List.length_append, List.length_map, ih,
+        List.length_cons, Nat.succ_mul]; omega
+  · cases h
+
+/-- … and **order**: the header (method, feature) is a function of the requested methods and
+feature names alone — dataset methods first in request order, then feature by feature all feature
+methods in request order — whatever the data, the filter and the configuration are -/
+theorem getStatistics_header (fp : FP) (reg : List (String × Bool)) (methods : Option (List String))
+    (feats : List (String × Option (List Val))) (enable : Bool) (m : List Bool) (flow : Option Rat)
+    (out : List Slot) (h : getStatistics fp reg methods feats enable m flow = some out) :
+    out.map (fun s => (s.method, s.feature))
+      = (methodsOf reg false (methods.getD (defaultMethods reg))).map (fun mt => (mt, none))
+        ++ feats.flatMap fun ft =>
+          (methodsOf reg true (methods.getD (defaultMethods reg))).map fun mt => (mt, some ft.1) := by
+  unfold getStatistics at h
+  simp only at h
+  split at h
+  · cases h
+    simp only [List.map_append, List.map_map, List.map_flatMap]
+    rfl
+  · cases h
+
+/-- **position** of a (feature, method) pair in the answer of `get_statistics` -/
+theorem getStatistics_index (fp : FP) (reg : List (String × Bool)) (methods : Option (List String))
+    (feats : List (String × Option (List Val))) (enable : Bool) (m : List Bool) (flow : Option Rat)
+    (out : List Slot) (h : getStatistics fp reg methods feats enable m flow = some out)
+    (i j : Nat) (hi : i < feats.length)
+    (hj : j < (methodsOf reg true (methods.getD (defaultMethods reg))).length) :
+    out[(methodsOf reg false (methods.getD (defaultMethods reg))).length
+        + (i * (methodsOf reg true (methods.getD (defaultMethods reg))).length + j)]?
+      = some ⟨(methodsOf reg true (methods.getD (defaultMethods reg)))[j], some feats[i].1,
+          match feats[i].2 with
+          | some xs => statCall fp reg
+              (methodsOf reg true (methods.getD (defaultMethods reg)))[j] enable m flow xs
+          | none => some none⟩ := by
+  unfold getStatistics at h
+  simp only at h
+  split at h
+  · cases h
+    generalize methodsOf reg true (methods.getD (defaultMethods reg)) = fm at hj ⊢
+    rw [List.getElem?_append_right (by simp), List.length_map, Nat.add_sub_cancel_left,
+      flatMap_const_getElem? _ fm.length (by intro a; simp) feats i j hj]
+    simp [List.getElem?_eq_getElem hi, List.getElem?_eq_getElem hj]
+    cases feats[i].2 <;> rfl
+  · cases h
+/-- a request raises (`KeyError`) exactly when a requested method is not registered -/
+theorem getStatistics_raises_iff (fp : FP) (reg : List (String × Bool)) (methods : List String)
+    (feats : List (String × Option (List Val))) (enable : Bool) (m : List Bool) (flow : Option Rat) :
+    getStatistics fp reg (some methods) feats enable m flow = none
+      ↔ ∃ mt ∈ methods, reg.lookup mt = none := by
+  unfold getStatistics
+  simp only [Option.getD_some]
+  split
+  · rename_i hall
+    simp only [reduceCtorEq, false_iff]
+    rintro ⟨mt, hm, hn⟩
+    have := List.all_eq_true.mp hall mt hm
+    simp [hn] at this
+  · rename_i hall
+    simp only [true_iff]
+    rw [Bool.not_eq_true, List.all_eq_false] at hall
+    obtain ⟨mt, hm, hn⟩ := hall
+    exact ⟨mt, hm, by cases hl : reg.lookup mt <;> simp_all⟩
+
+/-- **empty selection**: when the filter selects no event, every registered feature statistic is
+nan, "Events" is 0 and "%-gated" is 0 (dataset with at least one event) -/
+theorem empty_selection (fp : FP) (m : List Bool) (hm : countTrue m = 0) (hne : m ≠ []) :
+    (∀ e ∈ registry, e.2 = true → ∀ (flow : Option Rat) (xs : List Val),
+      statCall fp registry e.1 true m flow xs = some none) ∧
+    (∀ flow xs, statCall fp registry "Events" true m flow xs = some (some 0)) ∧
+    (∀ flow xs, statCall fp registry "%-gated" true m flow xs = some (some 0)) := by
+  have hsel : ∀ xs : List Val, sel m xs = [] := by
+    intro xs
+    have := sel_length_le m xs
+    rw [hm] at this
+    exact List.eq_nil_of_length_eq_zero (by omega)
+  have hemp : m.isEmpty = false := by cases m <;> simp_all
+  refine ⟨?_, ?_, ?_⟩
+  · intro e he h2 flow xs
+    obtain ⟨g, hg0, hg⟩ := (registry_factors_through_sel fp e he).1 h2
+    rw [(hg m flow xs).1, hsel xs]
+    simp [fins, hg0]
+  · intro flow xs
+    have : registry.lookup "Events" = some false := by decide +kernel
+    simp [statCall, this, dsMethod, events, hm, hemp]
+  · intro flow xs
+    have : registry.lookup "%-gated" = some false := by decide +kernel
+    simp [statCall, this, dsMethod, gated, hm, hemp]
+    rw [Rat.div_def, Rat.zero_mul, Rat.zero_mul]
+
+example : getStatistics ⟨id, fun _ => 1⟩ registry (some ["Mean", "Events", "Median"])
+    [("deform", some [.fin 1, .fin 100, .nan, .fin 4]), ("area_um", none)] true
+    [true, false, true, true] (some (1 / 25))
+    = some [⟨"Events", none, some (some 3)⟩,
+            ⟨"Mean", some "deform", some (some (5 / 2))⟩, ⟨"Median", some "deform", some (some (5 / 2))⟩,
+            ⟨"Mean", some "area_um", some none⟩, ⟨"Median", some "area_um", some none⟩] := by
+  decide +kernel
+
+example : getStatistics ⟨id, fun _ => 1⟩ registry (some ["Mean", "Bogus"]) [] true [true] none
+    = none := by decide +kernel
 
 /-! ## 5. scale -/
 
